@@ -135,6 +135,13 @@ lbool SimpSMTSolver::solve_(bool do_simp, bool turn_off_simp)
 
     if (do_simp)
     {
+        // A Boolean term that is an argument of an uninterpreted function is constrained by the E-graph as well as by
+        // its clauses (it may have none): it must keep its variable.
+        for (Var v = 0; v < nVars(); v++) {
+            if (not frozen[v] and not isEliminated(v) and theory_handler.getLogic().appearsInUF(theory_handler.varToTerm(v))) {
+                setFrozen(v, true);
+            }
+        }
         // Assumptions must be temporarily frozen to run variable elimination:
         for (int i = 0; i < assumptions.size(); i++)
         {
